@@ -220,7 +220,8 @@ def events_to_ops(evs):
             ops.append(cur)
         elif op.startswith("tbl_") and cur is not None:
             what = op[4:]
-            cur["script"].append([what, e["arg"]] if what == "get" else [what])
+            cur["script"].append([what, e["arg"]] if what == "get" else
+                                 [what, e["arg"], e.get("src", "iter")] if what == "walk" else [what])
         else:
             cur = None if not op.startswith("tbl_") else cur
             ops.append(e)
